@@ -213,6 +213,9 @@ type Runner struct {
 	A       *App
 	Entropy int64
 	Built   [][]byte
+	// Delivered holds the well-formed transactions passed to DeliverTx, in order (replay targets)
+	Delivered [][]byte
+	ROEntropy int64
 	Halted  string
 	Tick    int64 // current block time in ticks
 }
@@ -239,13 +242,24 @@ func recoverHalt(res *Result) {
 	}
 }
 
+// txBytes builds (or, for a replay, fetches) the transaction of an action. Only transactions
+// that were delivered can be replayed; read-only traffic (CheckTx/Simulate) draws its entropy
+// from a separate counter so that the delivered transactions of a history are byte-identical
+// whatever read-only calls are interleaved.
 func (r *Runner) txBytes(act Action) []byte {
-	if act.Replay > 0 && act.Replay <= len(r.Built) {
-		return r.Built[act.Replay-1]
+	if act.Replay > 0 && act.Replay <= len(r.Delivered) {
+		return r.Delivered[act.Replay-1]
+	}
+	if act.A != "Tx" {
+		r.ROEntropy--
+		return r.A.BuildTx(act, r.ROEntropy)
 	}
 	r.Entropy++
 	bz := r.A.BuildTx(act, r.Entropy)
 	r.Built = append(r.Built, bz)
+	if act.Kind != "garbage" {
+		r.Delivered = append(r.Delivered, bz)
+	}
 	return bz
 }
 
